@@ -151,6 +151,37 @@ func TestC15(t *testing.T) {
 				"ReadValue2": func(rt *rapid.T) { do(core.Case{Kind: "ReadValue", In: c15Doc(rt, 0)}) },
 				"ReadObject": func(rt *rapid.T) { do(core.Case{Kind: "ReadObject", In: c15Doc(rt, '{')}) },
 				"ReadArray":  func(rt *rapid.T) { do(core.Case{Kind: "ReadArray", In: c15Doc(rt, '[')}) },
+				"variant": func(rt *rapid.T) {
+					// an earlier input of this history with one small edit (whatever the reader
+					// remembers about a document it has seen must not leak into a near-copy)
+					var prev []int
+					for i := range hist {
+						if len(hist[i].In) > 0 && len(hist[i].In) < 4096 {
+							prev = append(prev, i)
+						}
+					}
+					if len(prev) == 0 {
+						rt.Skip("no earlier input")
+					}
+					base := hist[prev[rapid.IntRange(0, len(prev)-1).Draw(rt, "which")]]
+					b := append([]byte(nil), base.In...)
+					if rapid.Bool().Draw(rt, "beforequote") {
+						var quotes []int
+						for i, c := range b {
+							if c == '"' {
+								quotes = append(quotes, i)
+							}
+						}
+						if len(quotes) > 0 {
+							at := quotes[rapid.IntRange(0, len(quotes)-1).Draw(rt, "quote")]
+							c := []byte{0x00, 0x00, 0x01, 0x1f, '\\', '"', 'x', 0x7f, 0xff, ' '}[rapid.IntRange(0, 9).Draw(rt, "byte")]
+							b = append(b[:at:at], append([]byte{c}, b[at:]...)...)
+						}
+					} else {
+						b = gen.Mutate(rt, b)
+					}
+					do(core.Case{Kind: base.Kind, In: b})
+				},
 				"GC": func(rt *rapid.T) {
 					if len(hist) == 0 || rapid.IntRange(0, 3).Draw(rt, "gc?") != 0 {
 						rt.Skip("no GC this time")
